@@ -13,6 +13,7 @@
 // non-empty where a reduction needs an element (max/min/median/…), finite sample values.
 #include "common.hpp"
 #include <sys/wait.h>
+#include <sys/mman.h>
 #include <sstream>
 #include <set>
 #include <optional>
@@ -51,11 +52,24 @@ static std::string J(const std::vector<int>& v) { return vh::jints(v); }
 
 static unsigned g_watch = 20;   // seconds; every generated call is tiny (sizes <= a few thousand)
 
+// A call that killed the section's process (sanitizer abort, signal, watchdog) is recorded by the parent in
+// shared memory; the section is then run again from its start (same random stream) with that call skipped and
+// reported as DIED, output suppressed up to it — so one finding does not hide the calls that follow it.
+struct Shared { long long cur; long long died[64]; int ndied; };
+static Shared* g_sh = nullptr;
+static long long g_idx = 0, g_resume = 0;
+static bool g_quiet = false;
+static bool is_died(long long i) { for (int k = 0; g_sh && k < g_sh->ndied; ++k) if (g_sh->died[k] == i) return true; return false; }
+
 // returns 0 = returned, 1 = threw std::exception
 template<class F>
 static int call(const char* entry, const std::string& args, F&& f) {
     std::snprintf(g_entry, sizeof g_entry, "%s", entry);
     const std::string js = std::string("{\"entry\":\"") + entry + "\",\"args\":" + args + "}";
+    const long long my = ++g_idx;
+    if (g_sh) g_sh->cur = my;
+    g_quiet = my < g_resume;
+    if (is_died(my)) { out.n_oracle++; out.stat(std::string("died_") + entry); return 3; }
     vh::set_current(std::string("C05:") + entry, js);
     vh::watch(g_watch);
     int r = 0;
@@ -70,8 +84,8 @@ static int call(const char* entry, const std::string& args, F&& f) {
     vh::clear_current();
     out.n_oracle++;
     out.stat(std::string(r ? "throws_" : "ok_") + entry);
-    if (r == 2) { out.fail(std::string("C05:") + entry + ":foreign-exception", js); r = 1; }
-    if (out.n_oracle % 977 == 0) out.sample(js);
+    if (r == 2) { if (!g_quiet) out.fail(std::string("C05:") + entry + ":foreign-exception", js); r = 1; }
+    if (out.n_oracle % 977 == 0 && !g_quiet) out.sample(js);
     return r;
 }
 
@@ -79,16 +93,16 @@ static int call(const char* entry, const std::string& args, F&& f) {
 static void guard(const std::string& entry, std::initializer_list<long long> args, int r, std::initializer_list<long long> shape) {
     std::string l = "guard " + entry;
     for (auto a : args) l += " " + std::to_string(a);
-    std::string rhs = "ERR";
+    std::string rhs = r == 3 ? "DIED" : "ERR";
     if (r == 0) { rhs = "ok"; for (auto s : shape) rhs += " " + std::to_string(s); }
-    out.corr(l, rhs);
+    if (g_quiet) ++out.n_cases; else out.corr(l, rhs);
 }
 static void guardv(const std::string& entry, const std::vector<long long>& args, int r, const std::vector<long long>& shape) {
     std::string l = "guard " + entry;
     for (auto a : args) l += " " + std::to_string(a);
-    std::string rhs = "ERR";
+    std::string rhs = r == 3 ? "DIED" : "ERR";
     if (r == 0) { rhs = "ok"; for (auto s : shape) rhs += " " + std::to_string(s); }
-    out.corr(l, rhs);
+    if (g_quiet) ++out.n_cases; else out.corr(l, rhs);
 }
 
 // ------------------------------------------------------------------------------------------ data
@@ -461,4 +475,870 @@ static void sec_czt() {
     call("czt.w-off-circle", J({8, 8}), [&] { use(czt(cdata(8), 8, cmplx_t(0.9, 0.1))); });
 }
 
-//@@PART2@@
+// ================================================================================================ D. fir.h
+template<class T>
+static void sec_fir() {
+    const std::string e = std::string("FirFilter.") + tn<T>() + ".";
+    for (int lh : {1, 2, 3, 8, 33}) {
+        for (int lx : lens(lh)) {
+            int shape = -1;
+            int r = call((e + "conv").c_str(), J({lx, lh}), [&] { auto y = FirFilter<T>::conv(tdata<T>(lx), tdata<T>(lh)); use(y); shape = y.size(); });
+            guard("firconv", {lx, lh}, r, {shape});
+            r = call((e + "conv").c_str(), J({lh, lx}), [&] { auto y = FirFilter<T>::conv(tdata<T>(lh), tdata<T>(lx)); use(y); shape = y.size(); });
+            guard("firconv", {lh, lx}, r, {shape});
+        }
+        std::optional<FirFilter<T>> f;
+        if (call((e + "ctor").c_str(), J({lh}), [&] { f.emplace(tdata<T>(lh)); use(f->coeffs()); })) continue;
+        // a stream of frames of every length: the delay line is carried across calls
+        std::vector<int> fl = lens(lh);
+        for (int rep = 0; rep < 6; ++rep) fl.push_back(g_rng->range(0, 2 * lh + 3));
+        for (int lx : fl) {
+            int shape = -1;
+            int r = call((e + "process").c_str(), J({lh, lx}), [&] { auto y = (*f)(tdata<T>(lx)); use(y); shape = y.size(); });
+            guard("fir", {lh, lx}, r, {shape});
+        }
+    }
+}
+static void sec_fftfilter() {
+    for (int cplx = 0; cplx < 2; ++cplx)
+        for (int lh : {1, 2, 3, 5, 8, 31, 32, 33, 200}) {
+            std::optional<FftFilter> f;
+            const int rc = cplx ? call("FftFilter.ctor.c", J({lh}), [&] { f.emplace(cdata(lh)); }) : call("FftFilter.ctor.r", J({lh}), [&] { f.emplace(rdata(lh)); });
+            if (rc) continue;
+            int bs = 0;
+            call("FftFilter.block_size", J({lh}), [&] { bs = f->block_size(); });
+            std::vector<int> fl;
+            for (int l : lens(bs)) fl.push_back(l);
+            for (int rep = 0; rep < 8; ++rep) fl.push_back(g_rng->range(0, 2 * bs + 1));
+            std::vector<long long> args{lh, (long long)fl.size()}, shapes;
+            int rr = 0;
+            for (int lx : fl) {
+                args.push_back(lx);
+                int shape = -1;
+                int r = cplx ? call("FftFilter.process.c", J({lh, lx}), [&] { auto y = (*f)(cdata(lx)); use(y); shape = y.size(); })
+                             : call("FftFilter.process.r", J({lh, lx}), [&] { auto y = (*f)(rdata(lx)); use(y); shape = y.size(); });
+                rr |= r;
+                shapes.push_back(shape);
+            }
+            guardv("fftfilt", args, rr, shapes);
+        }
+    FftFilter dflt;
+    call("FftFilter.default.block_size", J({0}), [&] { use(real_t(dflt.block_size())); });
+}
+static void sec_fir1() {
+    for (int n : {1, 2, 3, 4, 5, 10, 11, 64}) {
+        for (double wn : {0.01, 0.3, 0.5, 0.99}) {
+            for (FilterType ft : {FilterType::Low, FilterType::High, FilterType::Bandpass, FilterType::Bandstop}) {
+                call("fir1.n-wn", J({n, int(wn * 100), int(ft)}), [&] { auto h = fir1(n, wn, ft); use(h); use(real_t(int(firtype(h)))); });
+                call("fir1.n-wn1-wn2", J({n, int(wn * 100), int(ft)}), [&] { auto h = fir1(n, wn * 0.5, wn, ft); use(h); });
+                std::set<int> wl{n + 2};
+                for (int l : lens(n + 1)) wl.insert(l);
+                for (int lw : wl) {
+                    call("fir1.n-wn-win", J({n, int(wn * 100), int(ft), lw}), [&] { use(fir1(n, wn, ft, rdata(lw, 2))); });
+                    call("fir1.n-wn1-wn2-win", J({n, int(wn * 100), int(ft), lw}), [&] { use(fir1(n, wn * 0.5, wn, ft, rdata(lw, 2))); });
+                }
+            }
+        }
+    }
+    for (int n : {0, 1, 2, 3, 4, 5, 8, 9})
+        for (int cls = 0; cls < 5; ++cls) call("firtype", J({n, cls}), [&] { auto h = rdata(n, cls); use(real_t(int(firtype(h)))); if (n > 1) { h.slice(0, n) = h - flip(h); use(real_t(int(firtype(h)))); } });
+}
+
+// ================================================================================================ E. resample.h
+static void sec_resample_tools() {
+    for (int p : {1, 2, 3, 4, 5, 7, 10, 48})
+        for (int q : {1, 2, 3, 4, 6, 9, 10, 44}) {
+            for (int hl : {1, 2, 12}) call("design_multirate_fir", J({p, q, hl}), [&] { use(design_multirate_fir(p, q, hl)); use(design_multirate_fir(p, q, hl, 30)); use(design_multirate_fir(p, q, hl, 10)); });
+            call("IResampler.sizes", J({p, q}), [&] {
+                auto s = IResampler::simplify(p, q); use(real_t(s.first + s.second));
+                for (int n : {0, 1, 2, 3, q - 1, q, q + 1, 2 * q, 1000}) { use(real_t(IResampler::next_size(n, p, q))); use(real_t(IResampler::prev_size(n, p, q))); }
+            });
+        }
+    for (int m : {1, 2, 3, 4, 7})
+        for (int lh : lens(m))
+            for (int flip_ : {0, 1}) {
+                int n0 = -1, n1 = -1;
+                int r = call("IResampler.polyphase", J({lh, m, flip_}), [&] { auto v = IResampler::polyphase(rdata(lh, 2), m, 2.0, flip_); n0 = int(v.size()); n1 = v.empty() ? 0 : v[0].size(); for (auto& a : v) use(a); });
+                guard("polyphase", {lh, m}, r, {n0, n1});
+            }
+}
+static void sec_decim() {
+    for (int d : {1, 2, 3, 4, 5, 8}) {
+        std::set<int> hls{1, 2, d - 1, d, d + 1, 2 * d, 3 * d + 1, 24 * d};
+        for (int lh : hls) {
+            if (lh < 1) continue;
+            std::optional<FIRDecimator> f;
+            if (call("FIRDecimator.ctor-h", J({d, lh}), [&] { f.emplace(d, rdata(lh, 2)); use(real_t(f->delay() + f->decim_rate() + f->interp_rate() + f->next_size(7) + f->prev_size(7))); })) continue;
+            std::vector<int> fl = lens(d);
+            for (int l : {4 * d, 5 * d, 4 * d + 1, 0, 3 * d}) fl.push_back(l);
+            for (int lx : fl) {
+                int shape = -1;
+                int r = call("FIRDecimator.process", J({d, lh, lx}), [&] { auto y = f->process(rdata(lx)); use(y); shape = y.size(); });
+                guard("decim", {d, lh, lx}, r, {shape});
+            }
+        }
+        std::optional<FIRDecimator> f;
+        if (call("FIRDecimator.ctor", J({d}), [&] { f.emplace(d); })) continue;
+        for (int lx : {0, d, 7 * d, 7 * d + 1, 1}) call("FIRDecimator.default.process", J({d, lx}), [&] { use(f->process(rdata(lx))); });
+    }
+}
+static void sec_interp() {
+    for (int L : {1, 2, 3, 4, 5, 8}) {
+        std::set<int> hls{1, 2, L - 1, L, L + 1, 2 * L, 3 * L + 1, 24 * L};
+        for (int lh : hls) {
+            if (lh < 1) continue;
+            std::optional<FIRInterpolator> f;
+            if (call("FIRInterpolator.ctor-h", J({L, lh}), [&] { f.emplace(L, rdata(lh, 2)); use(real_t(f->delay() + f->decim_rate() + f->interp_rate())); })) continue;
+            for (int lx : {0, 1, 2, 3, 7, 0, 16, 1}) {
+                int shape = -1;
+                int r = call("FIRInterpolator.process", J({L, lh, lx}), [&] { auto y = f->process(rdata(lx)); use(y); shape = y.size(); });
+                guard("interp", {L, lh, lx}, r, {shape});
+            }
+        }
+        std::optional<FIRInterpolator> f;
+        if (call("FIRInterpolator.ctor", J({L}), [&] { f.emplace(L); })) continue;
+        for (int lx : {0, 1, 9}) call("FIRInterpolator.default.process", J({L, lx}), [&] { use(f->process(rdata(lx))); });
+    }
+}
+static void sec_rateconv() {
+    for (int L : {1, 2, 3, 4, 5, 7})
+        for (int M : {1, 2, 3, 4, 6, 9}) {
+            std::set<int> hls{1, 2, L - 1, L, L + 1, 2 * L, 3 * L + 1, 24 * std::max(L, M)};
+            for (int lh : hls) {
+                if (lh < 1) continue;
+                std::optional<FIRRateConverter> f;
+                if (call("FIRRateConverter.ctor-h", J({L, M, lh}), [&] { f.emplace(L, M, rdata(lh, 2)); use(real_t(f->delay() + f->decim_rate() + f->interp_rate())); })) continue;
+                std::vector<int> fl = lens(M);
+                for (int l : {4 * M, 0, 4 * M + 1, 3 * M}) fl.push_back(l);
+                for (int lx : fl) {
+                    int shape = -1;
+                    int r = call("FIRRateConverter.process", J({L, M, lh, lx}), [&] { auto y = f->process(rdata(lx)); use(y); shape = y.size(); });
+                    guard("rateconv", {L, M, lh, lx}, r, {shape});
+                }
+            }
+            std::optional<FIRRateConverter> f;
+            if (call("FIRRateConverter.ctor", J({L, M}), [&] { f.emplace(L, M); })) continue;
+            for (int lx : {0, M, 5 * M, 5 * M + 1}) call("FIRRateConverter.default.process", J({L, M, lx}), [&] { use(f->process(rdata(lx))); });
+        }
+}
+static void sec_resample() {
+    const std::vector<std::pair<int, int>> ratios{{1, 1}, {2, 2}, {1, 2}, {2, 1}, {3, 2}, {2, 3}, {5, 2}, {5, 3}, {5, 4}, {9, 2}, {9, 4}, {10, 3}, {10, 7}, {10, 9}, {3, 7}, {7, 3}, {4, 6}, {160, 147}, {1, 16}, {16, 1}};
+    for (auto pq : ratios) {
+        const int p = pq.first, q = pq.second;
+        std::optional<FIRResampler> f;
+        if (!call("FIRResampler.ctor", J({p, q}), [&] { f.emplace(p, q); use(real_t(f->delay() + f->decim_rate() + f->interp_rate())); }))
+            for (int lx : {0, q, 4 * q, 4 * q + 1, 1}) call("FIRResampler.process", J({p, q, lx}), [&] { use(f->process(rdata(lx))); });
+        for (int lh : {1, 2, p, q, 2 * p * q + 1, 20 * std::max(p, q)}) {
+            std::optional<FIRResampler> g;
+            if (call("FIRResampler.ctor-h", J({p, q, lh}), [&] { g.emplace(p, q, rdata(lh, 2)); use(real_t(g->delay())); })) continue;
+            for (int lx : {0, q, 3 * q + 1}) call("FIRResampler.h.process", J({p, q, lh, lx}), [&] { use(g->process(rdata(lx))); });
+        }
+        std::vector<int> ls{0, 1, 2, 3, q - 1, q, q + 1, 2 * q, 50, 101};
+        if (g_thorough) { ls.push_back(1000); ls.push_back(1023); }
+        for (int lx : ls) {
+            if (lx < 0) continue;
+            if (std::max(p, q) > 100 && lx > 101) continue;
+            call("resample", J({lx, p, q}), [&] { use(resample(rdata(lx), p, q)); });
+            for (int nf : {1, 3}) call("resample.n-beta", J({lx, p, q, nf}), [&] { use(resample(rdata(lx), p, q, nf, 8.0)); });
+            for (int lh : {1, 2, 3, std::max(p, q), 4 * std::max(p, q) + 1, 20 * std::max(p, q)}) {
+                int shape = -1;
+                int r = call("resample.h", J({lx, p, q, lh}), [&] { auto y = resample(rdata(lx), p, q, rdata(lh, 2)); use(y); shape = y.size(); });
+                guard("resample", {lx, p, q, lh}, r, {shape});
+            }
+        }
+    }
+}
+
+// ================================================================================================ F. math.h
+template<class T>
+static void sec_math_unary() {
+    const std::string e = std::string("math.") + tn<T>() + ".";
+    for (int n : {0, 1, 2, 3, 8, 100}) {
+        for (int cls = 0; cls < 5; ++cls) {
+            const auto x = tdata<T>(n, cls);
+            call((e + "elementwise").c_str(), J({n, cls}), [&] {
+                use(exp(x)); use(tanh(x)); use(abs(x)); use(round(x)); use(conj(x)); use(abs2(x));
+                use(power(x, 2)); use(power(x, 0)); use(power(x, 1)); use(power(x, -1)); use(power(x, 3)); use(power(x, 0.5));
+                use(cumsum(x)); use(cumsum(x, Direction::Reverse)); use(flip(x)); use(sum(x));
+                use(real_t(anynan(x))); use(real_t(anyinf(x)));
+                if constexpr (std::is_same_v<T, cmplx_t>) { use(angle(x)); use(real(x)); use(imag(x)); use(power(cmplx_t(1, 1), real(x))); }
+                else { use(sin(x)); use(cos(x)); use(log(x)); use(log2(x)); use(log10(x)); use(expj(x)); use(complex(x)); use(deg2rad(x)); use(rad2deg(x));
+                       use(pow2db(x)); use(db2pow(x)); use(mag2db(x)); use(db2mag(x)); use(power(2.0, x)); use(real_t(issorted(x))); use(real_t(issorted(x, Direction::Descend)));
+                       auto s = sort(x); use(s.first); auto s2 = sort(x, Direction::Descend); use(s2.first); g_sink = g_sink + s.second.size() + s2.second.size(); }
+            });
+            if (n >= 1)   // reductions that need an element
+                call((e + "reductions").c_str(), J({n, cls}), [&] {
+                    use(max(x)); use(min(x)); use(peak2peak(x)); use(real_t(argmax(x))); use(real_t(argmin(x))); use(mean(x)); use(stddev(x)); use(rms(x));
+                    use(norm(x)); use(norm(x, 1)); use(norm(x, 3));
+                    if constexpr (std::is_same_v<T, real_t>) use(median(x));
+                });
+            for (int f : {1, 2, 3, 5})
+                for (int ph : {-1, 0, 1, f - 1, f, f + 1}) {
+                    int shape = -1;
+                    int r = call((e + "downsample").c_str(), J({n, f, ph}), [&] { auto y = downsample(x, f, ph); use(y); shape = y.size(); });
+                    guard("downsample", {n, f, ph}, r, {shape});
+                    r = call((e + "upsample").c_str(), J({n, f, ph}), [&] { auto y = upsample(x, f, ph); use(y); shape = y.size(); });
+                    guard("upsample", {n, f, ph}, r, {shape});
+                }
+            for (int f : {0, -1}) {
+                int r = call((e + "downsample").c_str(), J({n, f, 0}), [&] { use(downsample(x, f, 0)); });
+                guard("downsample", {n, f, 0}, r, {0});
+                r = call((e + "upsample").c_str(), J({n, f, 0}), [&] { use(upsample(x, f, 0)); });
+                guard("upsample", {n, f, 0}, r, {0});
+            }
+        }
+    }
+}
+static void sec_math_binary() {
+    for (int n : {0, 1, 2, 3, 8})
+        for (int lb : lens(n)) {
+            int r;
+            r = call("math.dot.r", J({n, lb}), [&] { use(dot(rdata(n), rdata(lb))); });
+            guard("samelen", {n, lb}, r, {});
+            r = call("math.dot.c", J({n, lb}), [&] { use(dot(cdata(n), cdata(lb))); });
+            guard("samelen", {n, lb}, r, {});
+            r = call("math.complex", J({n, lb}), [&] { use(complex(rdata(n), rdata(lb))); });
+            guard("samelen", {n, lb}, r, {});
+            r = call("math.power-vv.r", J({n, lb}), [&] { use(power(rdata(n), rdata(lb))); });
+            guard("samelen", {n, lb}, r, {});
+            r = call("math.power-vv.c", J({n, lb}), [&] { use(power(cdata(n), rdata(lb))); });
+            guard("samelen", {n, lb}, r, {});
+            for (auto t : {Correlation::Pearson, Correlation::Spearman, Correlation::Kendall})
+                for (int cls : {0, 2}) {
+                    r = call("math.corr", J({n, lb, int(t), cls}), [&] { use(corr(rdata(n, cls), rdata(lb, cls), t)); });
+                    guard("samelen", {n, lb}, r, {});
+                }
+            if (n >= 1) {
+                r = call("math.mse.r", J({n, lb}), [&] { use(mse(rdata(n), rdata(lb))); use(nmse(rdata(n), rdata(lb))); });
+                guard("samelen", {n, lb}, r, {});
+                r = call("math.mse.c", J({n, lb}), [&] { use(mse(cdata(n), cdata(lb))); use(nmse(cdata(n), cdata(lb))); });
+                guard("samelen", {n, lb}, r, {});
+            }
+        }
+    call("math.scalars", J({0}), [&] {
+        for (double v : {-2.5, -1.0, 0.0, 0.5, 1.0, 3.0}) {
+            use(dsplib::exp(v)); use(exp(cmplx_t(v, 1))); use(expj(v)); use(abs(v)); use(abs(cmplx_t(v, v))); use(angle(cmplx_t(v, -v))); use(dsplib::round(v)); use(round(cmplx_t(v, v)));
+            use(power(v, 2.0)); use(power(cmplx_t(v, 1), 2.5)); use(power(v, 3)); use(power(cmplx_t(v, 1), -1)); use(dsplib::log(v)); use(dsplib::log2(v)); use(dsplib::log10(v));
+            use(real_t(sign(v))); use(sign(cmplx_t(v, 0))); use(deg2rad(v)); use(rad2deg(v)); use(pow2db(v)); use(db2pow(v)); use(mag2db(v)); use(db2mag(v));
+            use(max(v, 1)); use(min(v, 1.0)); use(abs2(v)); use(abs2(cmplx_t(v, 1))); use(conj(cmplx_t(v, 1))); use(conj(v)); use(real(cmplx_t(v, 1))); use(imag(cmplx_t(v, 1)));
+        }
+        for (int m : {0, 1, 2, 3, 4, 5, 1023, 1024, 1025, (1 << 30) - 1, 1 << 30}) { use(real_t(nextpow2(m))); use(real_t(ispow2(m))); }
+        use(real_t(sum(std::vector<bool>{true, false, true}))); use(real_t(sum(std::vector<bool>{})));
+        use(eps()); use(eps(1.0)); use(real_t(eps(1.0f)));
+    });
+    // primes: the cost clause (bounded by the watchdog); arguments over the whole 32-bit range
+    for (uint32_t v : {0u, 1u, 2u, 3u, 4u, 97u, 65521u, 65536u, 1000003u, 2147483647u, 4294836225u, 4294967291u, 4294967295u})
+        call("math.isprime-factor", J({(long long)v}), [&] { use(real_t(isprime(v))); g_sink = g_sink + factor(v).size(); });
+    for (uint32_t v : {0u, 1u, 2u, 10u, 257u, 65536u, 1000000u, 2147483648u, 4294967291u})
+        call("math.nextprime", J({(long long)v}), [&] { use(real_t(nextprime(v))); });
+    for (uint32_t v : {0u, 1u, 2u, 3u, 10u, 11u, 1000u, 100000u})
+        call("math.primes", J({(long long)v}), [&] { g_sink = g_sink + primes(v).size(); });
+}
+
+// ================================================================================================ G. utils.h
+template<class T>
+static void sec_utils_t() {
+    const std::string e = std::string("utils.") + tn<T>() + ".";
+    for (int lx : {0, 1, 2, 5}) {
+        const auto x = tdata<T>(lx);
+        for (int n : {0, 1, 2, 3, lx - 1, lx, lx + 1, 2 * lx, 9}) {
+            if (n < 0) continue;
+            int shape = -1;
+            int r = call((e + "zeropad").c_str(), J({lx, n}), [&] { auto y = zeropad(x, n); use(y); shape = y.size(); });
+            guard("zeropad", {lx, n}, r, {shape});
+            r = call((e + "repelem").c_str(), J({lx, n}), [&] { auto y = repelem(x, n); use(y); shape = y.size(); });
+            guard("repelem", {lx, n}, r, {shape});
+        }
+        for (int d = -2 * lx - 2; d <= 2 * lx + 2; ++d) {
+            int shape = -1;
+            if constexpr (std::is_same_v<T, real_t>) {   // delayseq<cmplx_t> does not instantiate (zeros(N) -> arr_cmplx)
+                int r = call((e + "delayseq").c_str(), J({lx, d}), [&] { auto y = delayseq(x, d); use(y); shape = y.size(); });
+                guard("delayseq", {lx, d}, r, {shape});
+            }
+        }
+        call((e + "flip-concat").c_str(), J({lx}), [&] { use(flip(x)); use(concatenate(x, x)); use(concatenate(x, x, x, x, x)); use(concatenate(x, base_array<T>())); });
+        for (int ly : lens(lx)) {
+            int r = call((e + "finddelay").c_str(), J({lx, ly}), [&] { use(real_t(finddelay(x, tdata<T>(ly)))); });
+            guard("finddelay", {lx, ly}, r, {});
+        }
+        if (lx >= 1)
+            for (int idx = 0; idx < lx; ++idx)
+                for (int cyc : {0, 1})
+                    for (int cls : {0, 1, 2}) call((e + "peakloc").c_str(), J({lx, idx, cyc, cls}), [&] { use(peakloc(tdata<T>(lx, cls), idx, cyc)); });
+    }
+}
+static void sec_utils() {
+    for (int a : {-3, 0, 2})
+        for (int b : {-4, 0, 1, 5})
+            for (int s : {-2, -1, 0, 1, 3}) {
+                int shape = -1;
+                int r = call("utils.arange-int", J({a, b, s}), [&] { auto y = arange(a, b, s); use(y); shape = y.size(); });
+                guard("arange", {a, b, s}, r, {shape});
+            }
+    call("utils.arange-real", J({0}), [&] { use(arange(5)); use(arange(0)); use(arange(4.0)); use(arange(0.0, 1.0, 0.25)); use(arange(1.0, 0.0, -0.25)); use(arange(0, 1.0, 0.3)); use(arange(2.0, 2.0, 1.0)); use(arange(0.5)); });
+    for (int n : {0, 1, 2, 3, 10}) {
+        int shape = -1;
+        int r = call("utils.linspace", J({n}), [&] { auto y = linspace(-1, 2, size_t(n)); use(y); shape = y.size(); });
+        guard("linspace", {n}, r, {shape});
+        call("utils.zeros-ones", J({n}), [&] { use(zeros(n)); use(ones(n)); });
+        r = call("utils.to_complex", J({n}), [&] { std::vector<float> v(n, 1.f); auto y = to_complex(v); use(y); shape = y.size(); std::vector<int16_t> w(n, 2); use(to_complex(w.data(), w.size())); });
+        guard("to_complex", {n}, r, {shape});
+        call("utils.conversions", J({n}), [&] {
+            std::vector<int16_t> w(n, 3); use(to_real(w)); use(to_real(w.data(), w.size()));
+            auto a = rdata(n); g_sink = g_sink + from_real<int>(a).size() + from_real<float>(a).size() + from_complex<float>(cdata(n)).size() + a.to_vec<float>().size();
+        });
+    }
+    for (int n : {1, 2, 3, 8, 50})
+        for (int np : {0, 1, 2, n - 1, n, n + 1, 2 * n})
+            for (int cls : {0, 1, 2, 3}) {
+                if (np < 0) continue;
+                call("utils.findpeaks", J({n, np, cls}), [&] { auto p = findpeaks(rdata(n, cls), np); g_sink = g_sink + p.pks.size() + p.locs.size() + p.wds.size(); });
+            }
+    // from_file: missing file, empty file, short file, every dtype, offsets and counts around the file length
+    call("utils.from_file-missing", J({0}), [&] { use(from_file("/nonexistent/dir/x.bin")); });
+    char path[] = "/tmp/c05-XXXXXX";
+    const int fd = mkstemp(path);
+    if (fd >= 0) {
+        for (int nbytes : {0, 1, 2, 3, 4, 7, 8, 64}) {
+            { std::ofstream f(path, std::ios::binary | std::ios::trunc); for (int i = 0; i < nbytes; ++i) f.put(char(i * 37 + 1)); }
+            for (auto t : {dtype::int16, dtype::uint16, dtype::int32, dtype::uint32})
+                for (auto o : {endian::little, endian::big})
+                    for (long off : {0L, 1L, long(nbytes) - 1, long(nbytes), long(nbytes) + 5})
+                        for (long cnt : {0L, 1L, 3L, 1000L}) {
+                            if (off < 0) continue;
+                            call("utils.from_file", J({nbytes, int(t), int(o), off, cnt}), [&] { use(from_file(path, t, o, off, cnt)); });
+                        }
+            call("utils.from_file-default", J({nbytes}), [&] { use(from_file(path)); });
+        }
+        close(fd);
+        unlink(path);
+    }
+}
+
+// ================================================================================================ H. window.h
+static void sec_window() {
+    for (int n : {0, 1, 2, 3, 4, 5, 8, 9, 64, 65}) {
+        for (int sym : {0, 1}) {
+            int shape = -1, r;
+            r = call("window.hann", J({n, sym}), [&] { auto w = window::hann(n, sym); use(w); shape = w.size(); });
+            guard("window", {n, sym}, r, {shape});
+            r = call("window.hamming", J({n, sym}), [&] { auto w = window::hamming(n, sym); use(w); shape = w.size(); });
+            guard("window", {n, sym}, r, {shape});
+            r = call("window.cosine", J({n, sym}), [&] { auto w = window::cosine(n, sym); use(w); shape = w.size(); });
+            guard("window", {n, sym}, r, {shape});
+            r = call("window.blackman", J({n, sym}), [&] { auto w = window::blackman(n, sym); use(w); shape = w.size(); });
+            guard("window", {n, sym}, r, {shape});
+            r = call("window.blackmanharris", J({n, sym}), [&] { auto w = window::blackmanharris(n, sym); use(w); shape = w.size(); });
+            guard("window", {n, sym}, r, {shape});
+            for (double al : {0.0, 2.5, 10.0}) {
+                r = call("window.gauss", J({n, sym, int(al * 10)}), [&] { auto w = window::gauss(n, al, sym); use(w); shape = w.size(); });
+                guard("window", {n, sym}, r, {shape});
+            }
+        }
+        // tukey: the taper loop writes w[0 .. floor(r/2*(n-1))]; ratios as exact fractions rn/rd
+        const std::vector<std::pair<long long, long long>> ratios{{-1, 1}, {0, 1}, {1, 1000000000}, {1, 4}, {1, 2}, {3, 4}, {999999, 1000000}, {9007199254740991LL, 9007199254740992LL}, {1, 1}, {2, 1}};
+        for (auto rt : ratios) {
+            const long long rn = rt.first, rd = rt.second;
+            int shape = -1;
+            const double rr = double(rn) / double(rd);
+            int r = call("window.tukey", J({n, rn, rd}), [&] { auto w = window::tukey(n, rr); use(w); shape = w.size(); });
+            guard("tukey", {n, rn, rd}, r, {shape});
+        }
+        for (double beta : {0.0, 0.5, 5.0, 38.0, 100.0}) {
+            int shape = -1;
+            int r = call("window.kaiser", J({n, int(beta * 10)}), [&] { auto w = window::kaiser(n, beta); use(w); shape = w.size(); });
+            guard("kaiser", {n}, r, {shape});
+        }
+    }
+}
+
+// ================================================================================================ I. medfilt.h
+static void sec_medfilt() {
+    for (int n : {1, 2, 3, 4, 5, 8, 9}) {
+        for (int lx : lens(n)) {
+            for (int cls : {0, 2}) {
+                int shape = -1;
+                int r = call("medfilt", J({lx, n, cls}), [&] { auto x = rdata(lx, cls); auto y = medfilt(x, n); use(y); shape = y.size(); });
+                guard("medfilt", {lx, n}, r, {shape});
+            }
+        }
+        std::optional<MedianFilter> f;
+        const int rc = call("MedianFilter.ctor", J({n}), [&] { f.emplace(n, 0.5); use(real_t(f->order())); });
+        for (int lx : {0, 1, 2, n - 1, n, n + 1, 2 * n, 0, 3}) {
+            int shape = -1, r = 1;
+            if (!rc) r = call("MedianFilter.process", J({n, lx}), [&] { auto y = (*f)(rdata(lx)); use(y); shape = y.size(); });
+            guard("medianfilter", {n, lx}, r, {shape});
+        }
+    }
+    call("MedianFilter.default", J({0}), [&] { MedianFilter f; use(f(rdata(10))); });
+}
+
+// ================================================================================================ J. stft.h
+static void sec_stft() {
+    for (int lw : {1, 2, 3, 4, 8, 9}) {
+        std::set<int> ovs{-2, -1, 0, 1, lw / 2, lw - 1, lw, lw + 1};
+        for (int ov : ovs) {
+            for (auto me : {OverlapMethod::Ola, OverlapMethod::Wola}) {
+                int r = call("iscola", J({lw, ov, int(me)}), [&] { use(real_t(iscola(rdata(lw, 2), ov, me))); use(real_t(iscola(rdata(lw, 4), ov, me))); });
+                guard("iscola", {lw, ov}, r, {});
+            }
+            std::set<int> nffts{1, 2, 3, lw - 1, lw, lw + 1, 2 * lw, 16};
+            for (int nfft : nffts) {
+                if (nfft < 1) continue;
+                std::set<int> lxs{0, 1, lw - 1, lw, lw + 1, 2 * lw, 3 * lw + 1, 5 * lw};
+                for (int rg = 0; rg < 3; ++rg) {
+                    const StftRange range = rg == 0 ? StftRange::Onesided : rg == 1 ? StftRange::Centered : StftRange::Twosided;
+                    for (int lx : lxs) {
+                        int nseg = -1, fl = -1;
+                        int r = call("stft", J({lx, lw, ov, nfft, rg}), [&] { auto y = stft(rdata(lx), rdata(lw, 2), ov, nfft, range); nseg = int(y.size()); fl = y.empty() ? 0 : y[0].size(); for (auto& a : y) use(a); });
+                        guard("stft", {lx, lw, ov, nfft, rg}, r, {nseg, fl});
+                    }
+                    // inverse: frame count 0..3, frame length relative to the expected one
+                    const int expect = (rg == 0) ? nfft / 2 + 1 : nfft;
+                    for (int nseg : {0, 1, 2, 3})
+                        for (int lf : lens(expect))
+                            for (auto me : {OverlapMethod::Ola, OverlapMethod::Wola}) {
+                                if (nseg == 0 && lf != expect) continue;
+                                int shape = -1;
+                                int r = call("istft", J({nseg, lf, lw, ov, nfft, rg, int(me)}), [&] { std::vector<arr_cmplx> xx; for (int i = 0; i < nseg; ++i) xx.push_back(cdata(lf)); auto y = istft(xx, rdata(lw, 2), ov, nfft, range, me); use(y); shape = y.size(); });
+                                guard("istft", {nseg, lf, lw, ov, nfft, rg}, r, {shape});
+                            }
+                }
+            }
+        }
+    }
+    for (int nfft : {1, 2, 3, 4, 8, 12, 16})
+        for (int lx : {0, 1, nfft - 1, nfft, nfft + 1, 3 * nfft, 64})
+            for (int rg = 0; rg < 3; ++rg) {
+                if (lx < 0) continue;
+                const StftRange range = rg == 0 ? StftRange::Onesided : rg == 1 ? StftRange::Centered : StftRange::Twosided;
+                call("stft.default", J({lx, nfft, rg}), [&] { auto y = stft(rdata(lx), nfft, range); for (auto& a : y) use(a); use(istft(y, nfft, range)); use(istft(y, nfft, range, OverlapMethod::Ola)); });
+            }
+}
+
+// ================================================================================================ K. spectrum.h
+static void sec_spectrum() {
+    for (int lw : {1, 2, 3, 4, 8, 12}) {
+        std::set<int> novs{-1, 0, lw / 2, lw - 1, lw, lw + 1};
+        std::set<int> nffts{1, 2, 4, 8, 16, lw, 12, 32};
+        std::set<int> lxs{0, 1, lw - 1, lw, lw + 1, 2 * lw, 5 * lw + 1, 64};
+        for (int lx : lxs) {
+            if (lx < 0) continue;
+            for (auto sc : {SpectrumType::Psd, SpectrumType::Power}) {
+                call("welch.r.winlen", J({lx, lw, int(sc)}), [&] { auto w = welch(rdata(lx), lw, sc); use(w.pxx); use(w.f); });
+                call("welch.c.winlen", J({lx, lw, int(sc)}), [&] { auto w = welch(cdata(lx), lw, sc); use(w.pxx); use(w.f); });
+                call("welch.r.win", J({lx, lw, int(sc)}), [&] { auto w = welch(rdata(lx), rdata(lw, 2), sc); use(w.pxx); use(w.f); });
+                call("welch.c.win", J({lx, lw, int(sc)}), [&] { auto w = welch(cdata(lx), rdata(lw, 2), sc); use(w.pxx); use(w.f); });
+            }
+            call("mscohere.winlen", J({lx, lw}), [&] { use(mscohere(rdata(lx), rdata(lx), lw)); use(mscohere(rdata(lx), rdata(lx), rdata(lw, 2))); });
+            for (int nov : novs)
+                for (int nfft : nffts) {
+                    int shape = -1, r;
+                    r = call("welch.r.win-nov-nfft", J({lx, lw, nov, nfft}), [&] { auto w = welch(rdata(lx), rdata(lw, 2), nov, nfft); use(w.pxx); use(w.f); shape = w.pxx.size(); });
+                    guard("welch", {lx, lw, nov, nfft, 0}, r, {shape});
+                    r = call("welch.c.win-nov-nfft", J({lx, lw, nov, nfft}), [&] { auto w = welch(cdata(lx), rdata(lw, 2), nov, nfft, SpectrumType::Power); use(w.pxx); use(w.f); shape = w.pxx.size(); });
+                    guard("welch", {lx, lw, nov, nfft, 1}, r, {shape});
+                    if (lw >= 2) {
+                        call("welch.r.winlen-nov-nfft", J({lx, lw, nov, nfft}), [&] { auto w = welch(rdata(lx), lw, nov, nfft); use(w.pxx); });
+                        call("welch.c.winlen-nov-nfft", J({lx, lw, nov, nfft}), [&] { auto w = welch(cdata(lx), lw, nov, nfft); use(w.pxx); });
+                        call("mscohere.winlen-nov-nfft", J({lx, lw, nov, nfft}), [&] { use(mscohere(rdata(lx), rdata(lx), lw, nov, nfft)); });
+                    }
+                    for (int ly : {lx, lx + 1, 0}) {
+                        r = call("mscohere.win-nov-nfft", J({lx, ly, lw, nov, nfft}), [&] { auto c = mscohere(rdata(lx), rdata(ly), rdata(lw, 2), nov, nfft); use(c); shape = c.size(); });
+                        guard("mscohere", {lx, ly, lw, nov, nfft}, r, {shape});
+                    }
+                }
+        }
+    }
+}
+
+// ================================================================================================ L. snr.h
+static void sec_snr() {
+    for (int n : {1, 2, 3, 4, 5, 8, 16, 17, 64, 100, 1000})
+        for (int cls = 0; cls < 5; ++cls)
+            for (auto ty : {SinadType::Time, SinadType::Psd, SinadType::Power}) {
+                // a PSD / power spectrum argument is non-negative
+                auto mk = [&] { auto x = rdata(n, cls); return ty == SinadType::Time ? x : abs(x); };
+                call("sinad", J({n, cls, int(ty)}), [&] { use(sinad(mk(), ty)); });
+                for (int nh : {1, 2, 3, 6, 10})
+                    for (int al : {0, 1}) {
+                        call("snr", J({n, cls, int(ty), nh, al}), [&] { use(snr(mk(), nh, al, ty)); });
+                        call("thd", J({n, cls, int(ty), nh, al}), [&] { auto t = thd(mk(), nh, al, ty); use(t.value); use(t.harmpow); use(t.harmfreq); });
+                    }
+            }
+    call("snr.defaults", J({256}), [&] { auto x = rdata(256, 4); use(sinad(x)); use(snr(x)); use(thd(x).value); });
+}
+
+// ================================================================================================ M. lms.h rls.h
+template<class T>
+static void sec_adaptive() {
+    const std::string e = std::string(".") + tn<T>();
+    for (int len : {1, 2, 3, 8}) {
+        for (auto me : {LmsType::LMS, LmsType::NLMS}) {
+            std::optional<LmsFilter<T>> f;
+            if (call(("LmsFilter.ctor" + e).c_str(), J({len, int(me)}), [&] { f.emplace(len, 0.05, me, 0.999); })) continue;
+            std::vector<std::pair<int, int>> fr;
+            for (int lx : lens(len)) { fr.push_back({lx, lx}); fr.push_back({lx, lx + 1}); fr.push_back({lx + 1, lx}); fr.push_back({lx, 0}); }
+            for (auto fr1 : fr) {
+                const int lx = fr1.first, ld = fr1.second;
+                int shape = -1;
+                int r = call(("LmsFilter.process" + e).c_str(), J({len, int(me), lx, ld}), [&] { auto y = (*f)(tdata<T>(lx), tdata<T>(ld)); use(y.y); use(y.e); use(f->coeffs()); shape = y.y.size(); });
+                guard("lms", {len, lx, ld}, r, {shape});
+                if (lx == len) call(("LmsFilter.lock" + e).c_str(), J({len}), [&] { f->set_lock_coeffs(!f->coeffs_locked()); });
+            }
+        }
+        std::optional<RlsFilter<T>> f;
+        if (call(("RlsFilter.ctor" + e).c_str(), J({len}), [&] { f.emplace(len, 0.98, 10.0); })) continue;
+        for (int lx : lens(len))
+            for (int ld : {lx, lx + 1, 0}) {
+                int shape = -1;
+                int r = call(("RlsFilter.process" + e).c_str(), J({len, lx, ld}), [&] { auto y = (*f)(tdata<T>(lx), tdata<T>(ld)); use(y.y); use(y.e); use(f->coeffs()); shape = y.y.size(); });
+                guard("rls", {len, lx, ld}, r, {shape});
+                if (lx == len) call(("RlsFilter.lock" + e).c_str(), J({len}), [&] { f->set_lock_coeffs(!f->coeffs_locked()); });
+            }
+    }
+}
+
+// ================================================================================================ N. the rest
+template<class T>
+static void sec_delay() {
+    const std::string e = std::string("Delay.") + tn<T>();
+    for (int nd : {1, 2, 3, 8}) {
+        for (int form : {0, 1}) {
+            std::optional<Delay<T>> d;
+            if (call((e + ".ctor").c_str(), J({nd, form}), [&] { if (form) d.emplace(tdata<T>(nd)); else d.emplace(nd); })) continue;
+            for (int lx : {0, 1, 2, nd - 1, nd, nd + 1, 2 * nd, 0, 5}) {
+                int shape = -1;
+                int r = call((e + ".process").c_str(), J({nd, lx}), [&] { auto y = (*d)(tdata<T>(lx)); use(y); shape = y.size(); });
+                guard("delay", {nd, lx}, r, {shape});
+            }
+        }
+    }
+}
+static void sec_misc() {
+    for (int al : {1, 2, 100})
+        for (int lx : {0, 1, 2, al - 1, al, al + 1, 2 * al}) {
+            call("Agc.r", J({al, lx}), [&] { Agc a(1, 60.0, al, 0.01, 0.02); auto r = a.process(rdata(lx)); use(r.out); use(r.gain); auto r2 = a(rdata(lx)); use(r2.out); });
+            call("Agc.c", J({al, lx}), [&] { Agc a(0.5, 20.0, al); auto r = a.process(cdata(lx)); use(r.out); use(r.gain); auto r2 = a(cdata(lx, 1)); use(r2.out); });
+        }
+    call("Agc.average_len-0", J({0}), [&] { Agc a(1, 60.0, 0); });
+    call("Agc.default", J({0}), [&] { Agc a; use(a.process(rdata(300)).out); });
+    for (int lx : {0, 1, 2, 3, 100})
+        for (double s : {-10.0, 0.0, 30.0}) {
+            call("awgn.r", J({lx, int(s)}), [&] { use(awgn(rdata(lx), s)); });
+            call("awgn.c", J({lx, int(s)}), [&] { use(awgn(cdata(lx), s)); });
+        }
+    call("random", J({0}), [&] {
+        rng(int(g_seed)); use(real_t(randi(1))); use(real_t(randi(10))); use(real_t(randi({-3, 3}))); use(real_t(randi({5, 5}))); use(dsplib::rand()); use(randn());
+        for (int n : {0, 1, 2, 100}) { g_sink = g_sink + randi(6, n).size() + randi({-2, 2}, n).size(); use(rand(n)); use(rand({-1.0, 2.0}, n)); use(randn(n)); }
+    });
+    for (int fs : {1, 2, 3, 8, 48000})
+        for (double fr : {0.0, 0.5, 1.0, -1.0, fs / 2.0, -fs / 2.0, fs / 2.0 + 0.5, double(fs), 0.3, -1234.5}) {
+            std::optional<Tuner> t;
+            if (call("Tuner.ctor", J({fs, int(fr * 10)}), [&] { t.emplace(fs, fr); use(t->freq()); use(real_t(t->sample_rate())); })) continue;
+            for (int lx : {0, 1, fs - 1, fs, fs + 1, 2 * fs, 7}) if (lx <= 100) call("Tuner.process", J({fs, int(fr * 10), lx}), [&] { use((*t)(cdata(lx))); });
+        }
+    for (int l1 : {0, 1, 2, 3, 8, 17})
+        for (int l2 : lens(l1)) {
+            int shape = -1, r;
+            r = call("xcorr.r", J({l1, l2}), [&] { auto y = xcorr(rdata(l1), rdata(l2)); use(y); shape = y.size(); });
+            guard("xcorr", {l1, l2}, r, {shape});
+            r = call("xcorr.c", J({l1, l2}), [&] { auto y = xcorr(cdata(l1), cdata(l2)); use(y); shape = y.size(); });
+            guard("xcorr", {l1, l2}, r, {shape});
+            if (l1 >= 1 && l2 == l1) call("xcorr.auto", J({l1}), [&] { use(xcorr(rdata(l1))); use(xcorr(cdata(l1))); });
+            for (int cls : {0, 1, 2}) {
+                call("gccphat", J({l1, l2, cls}), [&] { auto g = gccphat(rdata(l1, cls), rdata(l2, cls)); use(g.tau); use(g.corr); auto g2 = gccphat(rdata(l1, cls), rdata(l2, cls), 8000); use(g2.tau); });
+                call("gccphat.multi", J({l1, l2, cls}), [&] { std::vector<arr_real> ch{rdata(l1, cls), rdata(l2, cls), rdata(l2, 0)}; auto g = gccphat(ch, rdata(l2, cls), 2); use(g.tau); for (auto& c : g.corr) use(c); });
+            }
+        }
+    call("gccphat.multi-none", J({8}), [&] { auto g = gccphat(std::vector<arr_real>{}, rdata(8)); use(g.tau); });
+    for (int lx : {0, 1, 2, 3, 4, 5, 8, 9, 64}) {
+        int shape = -1;
+        int r = call("hilbert", J({lx}), [&] { auto y = hilbert(rdata(lx)); use(y); shape = y.size(); });
+        guard("hilbert", {lx}, r, {shape});
+        for (int n : lens1(lx)) {
+            r = call("hilbert.n", J({lx, n}), [&] { auto y = hilbert(rdata(lx), n); use(y); shape = y.size(); });
+            guard("hilbert", {n}, r, {shape});
+        }
+    }
+    for (int fl : {1, 2, 3, 4, 5, 11, 51})
+        for (double tw : {0.001, 0.01, 0.1, 0.2, 0.3, 0.5}) {
+            call("HilbertFilter.design_fir", J({fl, int(tw * 1000)}), [&] { use(HilbertFilter::design_fir(fl, 1.0, tw)); use(HilbertFilter::design_fir(fl, 48000, tw * 48000)); });
+            std::optional<HilbertFilter> h;
+            if (call("HilbertFilter.ctor", J({fl, int(tw * 1000)}), [&] { h.emplace(fl, tw); use(h->impz()); })) continue;
+            for (int lx : {0, 1, fl - 1, fl, fl + 1, 2 * fl, 0, 3}) call("HilbertFilter.process", J({fl, lx}), [&] { use((*h)(rdata(lx))); });
+        }
+    for (int lh : {1, 2, 3, 4, 5, 9})
+        for (int kind : {0, 1}) {   // arbitrary taps (rejected unless type 3) / antisymmetric odd-length taps
+            std::optional<HilbertFilter> h;
+            if (call("HilbertFilter.ctor-h", J({lh, kind}), [&] { auto t = rdata(lh, 0); if (kind) { t = t - flip(t); } h.emplace(t); })) continue;
+            for (int lx : {0, 1, lh, 2 * lh + 1}) call("HilbertFilter.h.process", J({lh, lx}), [&] { use(h->process(rdata(lx))); });
+        }
+    call("HilbertFilter.default", J({0}), [&] { HilbertFilter h; use(h(rdata(100))); });
+    for (int lh : {1, 2, 3, 16, 63}) {
+        std::optional<PreambleDetector> d;
+        if (call("PreambleDetector.ctor", J({lh}), [&] { d.emplace(cdata(lh, 0), 0.5); })) continue;
+        int fl = 1;
+        call("PreambleDetector.frame_len", J({lh}), [&] { fl = d->frame_len(); });
+        const auto h = cdata(lh, 0);
+        for (int lx : {0, 1, fl - 1, fl, fl + 1, 2 * fl, 3 * fl, fl}) {
+            call("PreambleDetector.process", J({lh, lx}), [&] {
+                auto x = cdata(lx, 0) * 0.01;
+                if (lx >= lh + 2) x.slice(2, 2 + lh) = h;   // embed the preamble
+                auto r = (*d)(x);
+                if (r) { use(r->preamble); use(r->score); use(real_t(r->offset)); }
+            });
+            if (lx == 2 * fl) call("PreambleDetector.reset", J({lh}), [&] { d->reset(); });
+        }
+        call("PreambleDetector.zeros", J({lh}), [&] { PreambleDetector z(cdata(lh, 1)); auto r = z.process(cdata(z.frame_len(), 1)); if (r) use(r->score); });
+    }
+    // audio dynamics: parameters on and beyond the asserted ranges, frames of every length
+    for (int lx : {0, 1, 2, 100})
+        for (int cls : {0, 1, 2}) {
+            call("Compressor", J({lx, cls}), [&] { Compressor c(8000, -10, 5, 10, 0.01, 0.2); auto r = c(rdata(lx, cls)); use(r.out); use(r.gain); Compressor c0; use(c0.process(rdata(lx, cls)).out); Compressor c1(8000, 0, 1, 0, 0, 0); use(c1(rdata(lx, cls)).out); });
+            call("Limiter", J({lx, cls}), [&] { Limiter c(8000, -10, 10, 0.01, 0.2); auto r = c(rdata(lx, cls)); use(r.out); use(r.gain); Limiter c0; use(c0.process(rdata(lx, cls)).out); Limiter c1(8000, -50, 20, 4, 4); use(c1(rdata(lx, cls)).out); });
+            call("NoiseGate", J({lx, cls}), [&] { NoiseGate c(8000, -10, 0.05, 0.02, 0.05); auto r = c(rdata(lx, cls)); use(r.out); use(r.gain); NoiseGate c0; use(c0.process(rdata(lx, cls)).out); NoiseGate c1(8000, -140, 0, 0, 0); use(c1(rdata(lx, cls)).out); });
+        }
+    for (int which = 0; which < 10; ++which)
+        call("dynamics.param-range", J({which}), [&] {
+            switch (which) {
+            case 0: { Compressor c(8000, -51); break; } case 1: { Compressor c(8000, 1); break; } case 2: { Compressor c(8000, -10, 0); break; } case 3: { Compressor c(8000, -10, 51); break; }
+            case 4: { Compressor c(8000, -10, 5, 21); break; } case 5: { Compressor c(8000, -10, 5, 0, -1); break; } case 6: { Limiter c(8000, -10, 0, 5); break; } case 7: { Limiter c(8000, -10, -1); break; }
+            case 8: { NoiseGate c(8000, -141); break; } default: { NoiseGate c(8000, -10, 0.05, 0.02, 4.5); break; }
+            }
+        });
+}
+
+// calls whose ONLY array operands are empty (length 0 is in the quantifier's length set; nothing in the
+// headers documents a minimum length for these).  Reductions that need an element are not called.
+static void sec_empty() {
+    call("empty.xcorr.r", J({0, 0}), [&] { use(xcorr(arr_real(), arr_real())); });
+    call("empty.xcorr.c", J({0, 0}), [&] { use(xcorr(arr_cmplx(), arr_cmplx())); });
+    call("empty.xcorr.auto", J({0}), [&] { use(xcorr(arr_real())); });
+    call("empty.czt", J({0, 4}), [&] { use(czt(arr_cmplx(), 4, expj(-0.5))); });
+    call("empty.sort", J({0}), [&] { auto s = sort(arr_real()); use(s.first); });
+    call("empty.corr", J({0}), [&] { use(corr(arr_real(), arr_real(), Correlation::Kendall)); use(corr(arr_real(), arr_real(), Correlation::Spearman)); });
+    call("empty.fir-process", J({3, 0}), [&] { FirFilterR f(rdata(3)); use(f(arr_real())); use(f(arr_real())); });
+    call("empty.awgn", J({0}), [&] { use(awgn(arr_real(), 3)); });
+    call("empty.firtype", J({0}), [&] { use(real_t(int(firtype(arr_real())))); });
+    call("empty.polyphase", J({0, 3}), [&] { auto v = IResampler::polyphase(arr_real(), 3); for (auto& a : v) use(a); });
+    call("empty.FIRDecimator-h", J({2, 0}), [&] { FIRDecimator d(2, arr_real()); use(d.process(rdata(4))); });
+    call("empty.FIRInterpolator-h", J({2, 0}), [&] { FIRInterpolator d(2, arr_real()); use(d.process(rdata(4))); });
+    call("empty.FIRRateConverter-h", J({2, 3, 0}), [&] { FIRRateConverter d(2, 3, arr_real()); use(d.process(rdata(6))); });
+    call("empty.resample-h", J({8, 2, 3, 0}), [&] { use(resample(rdata(8), 2, 3, arr_real())); });
+    call("empty.FftFilter", J({0}), [&] { FftFilter f{arr_real()}; use(f(rdata(8))); });
+    call("empty.FirFilter", J({0}), [&] { FirFilterR f{arr_real()}; use(f(rdata(8))); });
+    call("empty.HilbertFilter", J({0}), [&] { HilbertFilter f{arr_real()}; use(f(rdata(8))); });
+    call("empty.PreambleDetector", J({0}), [&] { PreambleDetector d{arr_cmplx()}; use(real_t(d.frame_len())); });
+    call("empty.iscola", J({0, -2}), [&] { use(real_t(iscola(arr_real(), -2))); use(real_t(iscola(arr_real(), 0))); });
+    call("empty.welch-win", J({16, 0}), [&] { use(welch(rdata(16), arr_real()).pxx); });
+    call("empty.mscohere-win", J({16, 0}), [&] { use(mscohere(rdata(16), rdata(16), arr_real())); });
+    call("empty.stft-win", J({16, 0}), [&] { auto y = stft(rdata(16), arr_real(), -2, 4); for (auto& a : y) use(a); });
+    call("empty.istft", J({0}), [&] { use(istft(std::vector<arr_cmplx>{}, 8)); use(istft(std::vector<arr_cmplx>{arr_cmplx()}, arr_real(), -1, 8)); });
+    call("empty.sinad-psd", J({0}), [&] { use(sinad(arr_real(), SinadType::Psd)); });
+    call("empty.sinad-time", J({0}), [&] { use(sinad(arr_real())); });
+    call("empty.findpeaks-0", J({0, 0}), [&] { auto p = findpeaks(arr_real(), 0); g_sink = g_sink + p.pks.size(); });
+    call("empty.medfilt", J({0, 3}), [&] { arr_real x; use(medfilt(x, 3)); });
+    call("empty.hilbert", J({0}), [&] { use(hilbert(arr_real())); });
+    call("empty.gccphat", J({0}), [&] { use(gccphat(arr_real(), arr_real()).tau); });
+    call("empty.finddelay", J({0}), [&] { use(real_t(finddelay(arr_real(), arr_real()))); });
+}
+
+// ================================================================================================ random API call programs
+// a pool of long-lived objects (plans, filters, converters, adaptive filters); every step picks one and feeds it a
+// frame whose length is drawn from {0,1,2,3,n-1,n,n+1,2n} around the length the object expects, or a random one
+static void sec_programs() {
+    vh::Rng& g = *g_rng;
+    const int rounds = g_thorough ? 40 : 4;
+    for (int round = 0; round < rounds; ++round) {
+        struct PlanObj { int n; std::optional<FftPlan> c; std::optional<FftPlanR> r; std::optional<IfftPlan> i; std::optional<IfftPlanR> ir; };
+        std::vector<PlanObj> plans(6);
+        for (auto& p : plans) {
+            p.n = (g.next() % 3 == 0) ? (1 << g.range(0, 10)) : g.range(1, g_thorough ? 600 : 130);
+            call("prog.plan.ctor", J({p.n}), [&] { p.c.emplace(p.n); p.r.emplace(p.n); p.i.emplace(p.n); });
+            if (p.n % 2 == 0) call("prog.IfftPlanR.ctor", J({p.n}), [&] { p.ir.emplace(p.n); });
+        }
+        struct FirObj { int lh; std::optional<FirFilterR> fr; std::optional<FirFilterC> fc; std::optional<FftFilter> ff; };
+        std::vector<FirObj> firs(4);
+        for (auto& f : firs) { f.lh = g.range(1, 40); call("prog.fir.ctor", J({f.lh}), [&] { f.fr.emplace(rdata(f.lh)); f.fc.emplace(cdata(f.lh)); f.ff.emplace(rdata(f.lh)); }); }
+        struct RsObj { int L, M, lh; std::optional<FIRDecimator> d; std::optional<FIRInterpolator> i; std::optional<FIRRateConverter> rc; std::optional<FIRResampler> rs; };
+        std::vector<RsObj> rss(4);
+        for (auto& r : rss) {
+            r.L = g.range(1, 7); r.M = g.range(1, 7); r.lh = g.range(1, 60);
+            call("prog.resampler.ctor", J({r.L, r.M, r.lh}), [&] { r.d.emplace(r.M, rdata(r.lh, 2)); r.i.emplace(r.L, rdata(r.lh, 2)); r.rc.emplace(r.L, r.M, rdata(r.lh, 2)); r.rs.emplace(r.L, r.M); });
+        }
+        struct AdObj { int len; std::optional<LmsFilterR> lr; std::optional<LmsFilterC> lc; std::optional<RlsFilterR> rr; std::optional<MedianFilter> mf; std::optional<DelayReal> dl; };
+        std::vector<AdObj> ads(3);
+        for (auto& a : ads) {
+            a.len = g.range(1, 12);
+            call("prog.adaptive.ctor", J({a.len}), [&] { a.lr.emplace(a.len, 0.01, g.coin() ? LmsType::LMS : LmsType::NLMS); a.lc.emplace(a.len, 0.01); a.rr.emplace(a.len); a.dl.emplace(a.len); });
+            call("prog.MedianFilter.ctor", J({a.len}), [&] { a.mf.emplace(a.len); });
+        }
+        auto pick = [&](int expect) {
+            const auto v = lens(expect);
+            return (g.next() % 4 == 0) ? g.range(0, 3 * expect + 4) : v[g.next() % v.size()];
+        };
+        const int steps = g_thorough ? 2500 : 700;
+        for (int st = 0; st < steps; ++st) {
+            int shape = -1, r;
+            switch (g.next() % 16) {
+            case 0: { auto& p = plans[g.next() % plans.size()]; if (!p.c) break; const int l = pick(p.n);
+                r = call("prog.FftPlan.solve", J({p.n, l}), [&] { auto y = p.c->solve(cdata(l)); use(y); shape = y.size(); }); guard("fftplan", {p.n, l}, r, {shape}); break; }
+            case 1: { auto& p = plans[g.next() % plans.size()]; if (!p.r) break; const int l = pick(p.n);
+                r = call("prog.FftPlanR.solve", J({p.n, l}), [&] { auto y = p.r->solve(rdata(l)); use(y); shape = y.size(); }); guard("rfftplan", {p.n, l}, r, {shape}); break; }
+            case 2: { auto& p = plans[g.next() % plans.size()]; if (!p.i) break; const int l = pick(p.n);
+                r = call("prog.IfftPlan.solve", J({p.n, l}), [&] { auto y = p.i->solve(cdata(l)); use(y); shape = y.size(); }); guard("ifftplan", {p.n, l}, r, {shape}); break; }
+            case 3: { auto& p = plans[g.next() % plans.size()]; if (!p.ir) break; const int l = g.coin() ? pick(p.n) : pick(p.n / 2 + 1);
+                r = call("prog.IfftPlanR.solve", J({p.n, l}), [&] { auto y = p.ir->solve(cdata(l)); use(y); shape = y.size(); }); guard("irfft", {l, p.n}, r, {shape}); break; }
+            case 4: { auto& f = firs[g.next() % firs.size()]; if (!f.fr) break; const int l = pick(f.lh);
+                r = call("prog.FirFilterR.process", J({f.lh, l}), [&] { auto y = f.fr->process(rdata(l)); use(y); shape = y.size(); }); guard("fir", {f.lh, l}, r, {shape}); break; }
+            case 5: { auto& f = firs[g.next() % firs.size()]; if (!f.fc) break; const int l = pick(f.lh);
+                r = call("prog.FirFilterC.process", J({f.lh, l}), [&] { auto y = f.fc->process(cdata(l)); use(y); shape = y.size(); }); guard("fir", {f.lh, l}, r, {shape}); break; }
+            case 6: { auto& f = firs[g.next() % firs.size()]; if (!f.ff) break; const int l = pick(f.ff->block_size());
+                call("prog.FftFilter.process", J({f.lh, l}), [&] { if (g.coin()) use(f.ff->process(rdata(l))); else use(f.ff->process(cdata(l))); }); break; }
+            case 7: { auto& q = rss[g.next() % rss.size()]; if (!q.d) break; const int l = g.coin() ? q.M * g.range(0, 9) : pick(q.M);
+                r = call("prog.FIRDecimator.process", J({q.M, q.lh, l}), [&] { auto y = q.d->process(rdata(l)); use(y); shape = y.size(); }); guard("decim", {q.M, q.lh, l}, r, {shape}); break; }
+            case 8: { auto& q = rss[g.next() % rss.size()]; if (!q.i) break; const int l = pick(q.L);
+                r = call("prog.FIRInterpolator.process", J({q.L, q.lh, l}), [&] { auto y = q.i->process(rdata(l)); use(y); shape = y.size(); }); guard("interp", {q.L, q.lh, l}, r, {shape}); break; }
+            case 9: { auto& q = rss[g.next() % rss.size()]; if (!q.rc) break; const int l = g.coin() ? q.M * g.range(0, 9) : pick(q.M);
+                r = call("prog.FIRRateConverter.process", J({q.L, q.M, q.lh, l}), [&] { auto y = q.rc->process(rdata(l)); use(y); shape = y.size(); }); guard("rateconv", {q.L, q.M, q.lh, l}, r, {shape}); break; }
+            case 10: { auto& q = rss[g.next() % rss.size()]; if (!q.rs) break; const int l = g.coin() ? q.rs->decim_rate() * g.range(0, 9) : pick(q.M);
+                call("prog.FIRResampler.process", J({q.L, q.M, l}), [&] { use(q.rs->process(rdata(l))); }); break; }
+            case 11: { auto& a = ads[g.next() % ads.size()]; if (!a.lr) break; const int l = pick(a.len), d = (g.next() % 4) ? l : pick(l);
+                r = call("prog.LmsFilterR.process", J({a.len, l, d}), [&] { auto y = a.lr->process(rdata(l), rdata(d)); use(y.e); shape = y.y.size(); }); guard("lms", {a.len, l, d}, r, {shape}); break; }
+            case 12: { auto& a = ads[g.next() % ads.size()]; if (!a.lc) break; const int l = pick(a.len), d = (g.next() % 4) ? l : pick(l);
+                r = call("prog.LmsFilterC.process", J({a.len, l, d}), [&] { auto y = a.lc->process(cdata(l), cdata(d)); use(y.e); shape = y.y.size(); }); guard("lms", {a.len, l, d}, r, {shape}); break; }
+            case 13: { auto& a = ads[g.next() % ads.size()]; if (!a.rr) break; const int l = pick(a.len), d = (g.next() % 4) ? l : pick(l);
+                r = call("prog.RlsFilterR.process", J({a.len, l, d}), [&] { auto y = a.rr->process(rdata(l), rdata(d)); use(y.e); shape = y.y.size(); }); guard("rls", {a.len, l, d}, r, {shape}); break; }
+            case 14: { auto& a = ads[g.next() % ads.size()]; const int l = pick(a.len); r = 1;
+                if (a.mf) r = call("prog.MedianFilter.process", J({a.len, l}), [&] { auto y = a.mf->process(rdata(l)); use(y); shape = y.size(); });
+                guard("medianfilter", {a.len, l}, r, {shape}); break; }
+            default: { auto& a = ads[g.next() % ads.size()]; if (!a.dl) break; const int l = pick(a.len);
+                r = call("prog.Delay.process", J({a.len, l}), [&] { auto y = a.dl->process(rdata(l)); use(y); shape = y.size(); }); guard("delay", {a.len, l}, r, {shape}); break; }
+            }
+        }
+        // one-shot functions on random lengths around each other
+        for (int st = 0; st < (g_thorough ? 400 : 100); ++st) {
+            const int n = g.range(0, 40), l2 = pick(n), w = g.range(1, 12);
+            int shape = -1, r;
+            r = call("prog.xcorr", J({n, l2}), [&] { auto y = xcorr(rdata(n), rdata(l2)); use(y); shape = y.size(); });
+            guard("xcorr", {n, l2}, r, {shape});
+            const int ov = g.range(-2, w + 1), nfft = g.coin() ? (1 << g.range(0, 6)) : g.range(1, 40), rg = int(g.next() % 3);
+            int nseg = -1, fl = -1;
+            r = call("prog.stft", J({n, w, ov, nfft, rg}), [&] { auto y = stft(rdata(n), rdata(w, 2), ov, nfft, StftRange(rg == 0 ? int(StftRange::Onesided) : rg == 1 ? int(StftRange::Centered) : int(StftRange::Twosided))); nseg = int(y.size()); fl = y.empty() ? 0 : y[0].size(); });
+            guard("stft", {n, w, ov, nfft, rg}, r, {nseg, fl});
+            r = call("prog.welch", J({n, w, ov, nfft}), [&] { auto y = welch(rdata(n), rdata(w, 2), ov, nfft); shape = y.pxx.size(); });
+            guard("welch", {n, w, ov, nfft, 0}, r, {shape});
+            const int p = g.range(1, 9), q = g.range(1, 9), lh = g.range(1, 50);
+            r = call("prog.resample.h", J({n, p, q, lh}), [&] { auto y = resample(rdata(n), p, q, rdata(lh, 2)); use(y); shape = y.size(); });
+            guard("resample", {n, p, q, lh}, r, {shape});
+            const int f = g.range(1, 6), ph = g.range(-1, f);
+            r = call("prog.downsample", J({n, f, ph}), [&] { auto y = downsample(rdata(n), f, ph); shape = y.size(); });
+            guard("downsample", {n, f, ph}, r, {shape});
+            r = call("prog.medfilt", J({n, w}), [&] { auto x = rdata(n); auto y = medfilt(x, w); shape = y.size(); });
+            guard("medfilt", {n, w}, r, {shape});
+        }
+    }
+}
+
+// large arguments: the cost clause (every call must come back well inside the watchdog)
+static void sec_large() {
+    const int N = g_thorough ? (1 << 17) : (1 << 14);
+    for (int n : {N, N + 1, N - 1, 65537 > N ? 4099 : 65537, 3 * 5 * 7 * 11 * 13}) {
+        call("large.fft", J({n}), [&] { use(sum(fft(cdata(n)))); use(sum(fft(rdata(n)))); use(sum(ifft(cdata(n)))); if (n % 2 == 0) use(sum(irfft(cdata(n / 2 + 1), n))); });
+    }
+    call("large.xcorr", J({N}), [&] { use(sum(xcorr(rdata(N), rdata(N / 2)))); });
+    call("large.sort-median", J({N}), [&] { auto s = sort(rdata(N)); use(s.first[0]); use(median(rdata(N))); use(corr(rdata(N / 16), rdata(N / 16), Correlation::Spearman)); });
+    call("large.medfilt", J({N}), [&] { auto x = rdata(N); use(sum(medfilt(x, 9))); });
+    call("large.resample", J({N}), [&] { use(sum(resample(rdata(N), 160, 147))); use(sum(resample(rdata(N), 1, 64))); use(sum(resample(rdata(N / 16), 16, 1))); });
+    call("large.fftfilter", J({N}), [&] { FftFilter f(rdata(1001)); use(sum(f(rdata(N)))); FirFilterR g(rdata(64)); use(sum(g(rdata(N)))); });
+    call("large.welch-stft", J({N}), [&] { use(sum(welch(rdata(N), 1024).pxx)); auto y = stft(rdata(N), 512); use(sum(istft(y, 512))); use(sum(mscohere(rdata(N), rdata(N), 256))); });
+    call("large.snr", J({N}), [&] { auto x = rdata(N, 4); use(snr(x)); use(sinad(x)); use(thd(x).value); });
+    call("large.hilbert-czt", J({N}), [&] { use(sum(hilbert(rdata(N)))); use(sum(czt(cdata(N / 8), N / 8 + 3, expj(-2 * pi / (N / 8 + 3))))); });
+    call("large.slice", J({N}), [&] { auto x = rdata(N); x.slice(0, N, 3) = x.slice(N - 1, 0, -3); x.slice(1, N) = x.slice(0, N - 1); use(sum(x)); std::vector<int> idx(N); for (int i = 0; i < N; ++i) idx[i] = (i * 7919) % N; use(sum(x[idx])); });
+    call("large.primes", J({N}), [&] { g_sink = g_sink + primes(2000000).size(); use(real_t(nextprime(4000000000u))); use(real_t(isprime(4294967291u))); g_sink = g_sink + factor(4294967295u).size(); });
+}
+
+// ================================================================================================ main
+struct Section { const char* name; void (*fn)(); };
+static const Section SECTIONS[] = {
+    {"array.r", sec_array_ops<real_t>}, {"array.c", sec_array_ops<cmplx_t>}, {"idxlist.r", sec_idxlist<real_t>}, {"idxlist.c", sec_idxlist<cmplx_t>},
+    {"print", sec_print}, {"slice.r", sec_slice<real_t>}, {"slice.c", sec_slice<cmplx_t>},
+    {"fftplan", sec_fftplan}, {"fftfn", sec_fftfn}, {"czt", sec_czt},
+    {"fir.r", sec_fir<real_t>}, {"fir.c", sec_fir<cmplx_t>}, {"fftfilter", sec_fftfilter}, {"fir1", sec_fir1},
+    {"resample-tools", sec_resample_tools}, {"decim", sec_decim}, {"interp", sec_interp}, {"rateconv", sec_rateconv}, {"resample", sec_resample},
+    {"math.r", sec_math_unary<real_t>}, {"math.c", sec_math_unary<cmplx_t>}, {"math2", sec_math_binary},
+    {"utils.r", sec_utils_t<real_t>}, {"utils.c", sec_utils_t<cmplx_t>}, {"utils", sec_utils}, {"window", sec_window}, {"medfilt", sec_medfilt},
+    {"stft", sec_stft}, {"spectrum", sec_spectrum}, {"snr", sec_snr}, {"adaptive.r", sec_adaptive<real_t>}, {"adaptive.c", sec_adaptive<cmplx_t>},
+    {"delay.r", sec_delay<real_t>}, {"delay.c", sec_delay<cmplx_t>}, {"misc", sec_misc}, {"empty", sec_empty}, {"programs", sec_programs}, {"large", sec_large},
+};
+
+int main(int argc, char** argv) {
+    vh::Args a(argc, argv);
+    g_thorough = a.thorough;
+    g_seed = a.seed;
+    std::string only = a.replay;   // --replay <section name> runs one section in-process (debugging / replay)
+    long long died = 0;
+    int idx = 0;
+    for (const auto& s : SECTIONS) {
+        ++idx;
+        if (!only.empty() && only != s.name) continue;
+        g_sh = static_cast<Shared*>(mmap(nullptr, sizeof(Shared), PROT_READ | PROT_WRITE, MAP_SHARED | MAP_ANONYMOUS, -1, 0));
+        if (g_sh == MAP_FAILED) return 3;
+        std::memset(g_sh, 0, sizeof(Shared));
+        for (;;) {
+            std::fflush(stdout);
+            int fds[2];
+            if (pipe(fds) != 0) return 3;
+            const pid_t pid = fork();
+            if (pid < 0) return 3;
+            if (pid == 0) {
+                close(fds[0]);
+                c05_install();
+                vh::Rng rng(a.seed * 1000003ULL + uint64_t(idx));
+                g_rng = &rng;
+                out = Out();
+                out.max_samples = 1;
+                g_idx = 0;
+                g_resume = g_sh->ndied ? g_sh->died[g_sh->ndied - 1] : 0;
+                s.fn();
+                std::fflush(stdout);
+                std::string st = "__cases " + std::to_string(out.n_cases) + "\n__fail " + std::to_string(out.n_fail) + "\n__oracle " + std::to_string(out.n_oracle) + "\n";
+                for (auto& kv : out.stats) st += kv.first + " " + std::to_string(kv.second) + "\n";
+                size_t off = 0;
+                while (off < st.size()) { ssize_t w = write(fds[1], st.data() + off, st.size() - off); if (w <= 0) break; off += size_t(w); }
+                close(fds[1]);
+                std::_Exit(0);
+            }
+            close(fds[1]);
+            std::string buf;
+            char tmp[4096];
+            ssize_t k;
+            while ((k = read(fds[0], tmp, sizeof tmp)) > 0) buf.append(tmp, size_t(k));
+            close(fds[0]);
+            int status = 0;
+            waitpid(pid, &status, 0);
+            const bool clean = WIFEXITED(status) && WEXITSTATUS(status) == 0;
+            if (!clean) {
+                ++died;
+                out.stat(std::string("section_died_") + s.name);
+                ++out.n_fail;
+                if (g_sh->ndied < 64 && g_sh->cur > 0 && !is_died(g_sh->cur)) { g_sh->died[g_sh->ndied++] = g_sh->cur; continue; }
+                break;   // no progress possible
+            }
+            std::istringstream is(buf);
+            std::string key; long long val;
+            while (is >> key >> val) {
+                if (key == "__cases") out.n_cases += val; else if (key == "__fail") out.n_fail += val; else if (key == "__oracle") out.n_oracle += val; else out.stats[key] += val;
+            }
+            break;
+        }
+        munmap(g_sh, sizeof(Shared));
+        g_sh = nullptr;
+        out.stat("sections_run");
+    }
+    out.stats["sections_died"] = died;
+    out.stats["distinct_nontrivial"] = out.n_oracle;
+    out.finish();
+    return died ? 1 : 0;
+}
